@@ -299,6 +299,19 @@ def rfc3339(ns):
     return s + '+00:00'
 
 
+def chrono_duration_text(ns):
+    """chrono TimeDelta Display (ISO 8601 flavoured): PT3600S, PT0.000001S, P0D, -PT5S"""
+    sign = '-' if ns < 0 else ''
+    ns = abs(ns)
+    secs, nanos = divmod(ns, 10**9)
+    if secs == 0 and nanos == 0:
+        return sign + 'P0D'
+    out = sign + 'PT%d' % secs
+    if nanos:
+        out += '.' + ('%09d' % nanos).rstrip('0')
+    return out + 'S'
+
+
 def model_value(x):
     """model value s-expression -> canonical python (what -o json would show)"""
     if isinstance(x, Sym):
@@ -324,7 +337,7 @@ def model_value(x):
     if tag == 'd':
         return rfc3339(int(x[1]))
     if tag == 'u':
-        return ('dur', int(x[1]))
+        return chrono_duration_text(int(x[1]))
     raise ValueError(x)
 
 
